@@ -25,7 +25,7 @@ class wall_guard:
 
     def __enter__(self):
         self.old = signal.signal(signal.SIGALRM, _on_alarm)
-        signal.setitimer(signal.ITIMER_REAL, self.seconds)
+        signal.setitimer(signal.ITIMER_REAL, self.seconds, 2.0)  # re-fires if swallowed
         return self
 
     def __exit__(self, *exc):
